@@ -227,7 +227,8 @@ assert len(state.decoded_descriptors) == n
 op(236000)
 assert len(state.decoded_descriptors) == n + 1 and state.decoded_values[-1] == 0
 
-# 237000 recalls (fails without a bitmap, before anything is recorded), 237255 cancels a reusable bitmap only
+# 237000 recalls (fails without a bitmap, before anything is recorded), 237255 cancels the bitmap defined for reuse
+# (rebased again: since "fix: 237255 cancels the bitmap defined for reuse also when ..." whatever bitmap was built last)
 # (rebased: since "fix: 237000 recalls the bitmap defined for reuse" the refusal is a PyBufrKitError and the
 # bitmapped descriptors are rebuilt from the bitmap and the back referenced descriptors)
 e = expect_error(PyBufrKitError, op, 237000)
@@ -238,7 +239,8 @@ state.back_referenced_descriptors = [(0, 'x'), (1, 'y')]
 op(237000)
 assert state.next_bitmapped_descriptor() == (0, 'x') and len(state.decoded_descriptors) == n + 2
 state.most_recent_bitmap_is_for_reuse = False
-assert op(237255).bitmap == [0, 1] and len(state.decoded_descriptors) == n + 3
+assert op(237255).bitmap is None and len(state.decoded_descriptors) == n + 3
+state.bitmap = [0, 1]
 state.most_recent_bitmap_is_for_reuse = True
 assert op(237255).bitmap is None and len(state.decoded_descriptors) == n + 4
 assert state.bitmapped_descriptors == [(0, 'x')]
